@@ -14,8 +14,11 @@ def run(tier, only=None):
     t = 420 if tier == "quick" else 1500
     ladder = [2, 1] if tier == "quick" else [3, 2]
     conds = []
+    # field kinds worth varying per operation (quick): operations that never look at text get one field kind
+    per_op = {0: (0, 2), 1: (0, 2), 2: (0, 2), 3: (0, 2), 4: (0,), 5: (0, 1, 2, 3), 6: (0, 2), 7: (0, 1, 2, 3), 8: (0, 2), 9: (0,),
+              10: (0,), 11: (0,), 12: (0, 3), 13: (1,)}
     for op in range(len(OPS)):
-        for fld in range(4):
+        for fld in (per_op[op] if tier == "quick" else range(4)):
             conds.append(Cond("harness.h_c11", "h_readonly", t, part=fld * 100 + op, ladder=ladder,
                               label="h_readonly[op=%d %s, field=%d]" % (op, OPS[op], fld)))
     if only:
